@@ -19,4 +19,5 @@ CurrentDev == {"D_ClassOffPushesNone"}
 Both == {TRUE, FALSE}
 Varied == {"macro", "cpp_constructor", "ct_add_test", "ct_add_section", "add_test", "option"}
 Flags == {[f \in FlagKinds |-> IF f \in Varied THEN b[f] ELSE TRUE] : b \in [Varied -> BOOLEAN]}
+         \cup {[f \in FlagKinds |-> FALSE]}        \* and everything off at once
 =============================================================================
